@@ -5,6 +5,7 @@ import (
 	"context"
 	"fmt"
 	"io"
+	"strings"
 	"sync/atomic"
 	"time"
 
@@ -131,7 +132,176 @@ func c10Gen(tier string, seed int64) []fw.Case {
 			}
 		}
 	}
+	// one context shared by a reading and a writing call that overlap (a session context handed to a reader and a
+	// writer goroutine): the call that registered first completes, the other is still blocked when the context
+	// ends - it is that call's own context too
+	for i := 0; i < tierPick(tier, 40, 400); i++ {
+		d := c10Desc{Kind: "shared-context", Role: bothRoles[i%2], Params: allParams[(i/2)%len(allParams)], Blocked: []string{"write-after-read-completed", "read-after-write-completed", "ping-after-read-completed", "read-after-ping-completed"}[(i/2)%4], How: []string{"cancel", "deadline"}[(i/8)%2], Seed: rng.U64()}
+		dd := d
+		cases = append(cases, fw.Case{Name: fmt.Sprintf("shared-context/%s/%s/%s", d.Role, d.Blocked, d.How), Desc: dd, Run: func(r *fw.R) { c10Shared(r, dd) }})
+	}
 	return cases
+}
+
+// c10Shared: call A and call B get the SAME context. A registers first and blocks, B registers and blocks, A is
+// released by the peer and returns nil, the context ends: B must return an error and the connection be closed.
+func c10Shared(r *fw.R, d c10Desc) {
+	r.SetSample(d)
+	canaryMax.Store(0)
+	lib2peer := xport.Plan{NoTap: true, Capacity: 3000}
+	c, libEnd, peerEnd, err := libConn(d.Role, d.Params, 1<<20, lib2peer, xport.Plan{NoTap: true})
+	if err != nil {
+		r.Violate("C10/attach-failed", err.Error(), "")
+		return
+	}
+	defer c.CloseNow()
+	defer peerEnd.Close()
+	peer := newRawPeer(peerEnd, d.Role, d.Params, d.Seed)
+	peer.Paused.Store(true) // the peer does not read: writes of more than the window block
+	peer.Start()
+	what := fmt.Sprintf("%s %s shared-context %s how=%s", d.Role, paramsKey(d.Params), d.Blocked, d.How)
+	r.Key("shared-context/%s/%s/%s/%s", d.Role, paramsKey(d.Params), d.Blocked, d.How)
+	base, cancelBase := context.WithTimeout(context.Background(), 90*time.Second)
+	defer cancelBase()
+	ctx, cancel := context.WithCancel(base)
+	if d.How == "deadline" {
+		cancel()
+		ctx, cancel = context.WithTimeout(base, 300*time.Millisecond)
+	}
+	defer cancel()
+	readRes := make(chan error, 1)
+	writeRes := make(chan error, 1)
+	startRead := func() {
+		go func() {
+			_, b, err := c.Read(ctx)
+			if err == nil && string(b) != "released" {
+				err = fmt.Errorf("read %q", b)
+			}
+			readRes <- err
+		}()
+	}
+	startWrite := func() {
+		go func() {
+			if strings.HasPrefix(d.Blocked, "ping") || strings.HasSuffix(d.Blocked, "ping-completed") {
+				writeRes <- c.Ping(ctx)
+			} else {
+				writeRes <- c.Write(ctx, websocket.MessageBinary, make([]byte, 20000))
+			}
+		}()
+	}
+	waitFor := func(cond func() bool) bool {
+		for t0 := time.Now(); time.Since(t0) < 5*time.Second; time.Sleep(100 * time.Microsecond) {
+			if cond() {
+				return true
+			}
+		}
+		return false
+	}
+	isPing := strings.Contains(d.Blocked, "ping")
+	readFirst := strings.HasSuffix(d.Blocked, "after-read-completed")
+	var blockedRes, firstRes chan error
+	if readFirst {
+		startRead()
+		if !waitFor(func() bool { return libEnd.ActiveReads() > 0 }) {
+			return
+		}
+		startWrite()
+		// a Ping is written (the window takes it) and then waits for its Pong, which the paused peer never sends;
+		// a Write blocks in the transport
+		if !isPing && !waitFor(func() bool { return libEnd.ActiveWrites() > 0 }) {
+			return
+		}
+		if isPing {
+			time.Sleep(2 * time.Millisecond)
+		}
+		peer.Send(wire.Data(wire.OpBinary, true, []byte("released")))
+		firstRes, blockedRes = readRes, writeRes
+	} else {
+		startWrite()
+		if !isPing && !waitFor(func() bool { return libEnd.ActiveWrites() > 0 }) {
+			return
+		}
+		if isPing {
+			time.Sleep(2 * time.Millisecond)
+		}
+		startRead()
+		time.Sleep(2 * time.Millisecond)
+		// release the writing call: the peer reads again (and answers the Ping)
+		peer.AutoPong = false
+		peer.Paused.Store(false)
+		if isPing {
+			ok := peer.Wait(5*time.Second, func() bool {
+				for _, f := range peer.frames {
+					if f.Op == wire.OpPing {
+						return true
+					}
+				}
+				return false
+			})
+			if !ok {
+				return
+			}
+			var pl []byte
+			peer.Locked(func() {
+				for _, f := range peer.frames {
+					if f.Op == wire.OpPing {
+						pl = f.Payload
+					}
+				}
+			})
+			peer.Send(wire.Pong(pl))
+		}
+		firstRes, blockedRes = writeRes, readRes
+	}
+	select {
+	case err := <-firstRes:
+		if err != nil {
+			return // (the set-up did not work out: no verdict)
+		}
+	case <-time.After(20 * time.Second):
+		return
+	}
+	select {
+	case err := <-blockedRes:
+		_ = err
+		return // the second call is not blocked any more: nothing to judge
+	case <-time.After(3 * time.Millisecond):
+	}
+	if ctx.Err() != nil {
+		return // (the deadline passed during the set-up: no verdict)
+	}
+	tc := time.Now()
+	if d.How == "cancel" {
+		cancel()
+	} else {
+		<-ctx.Done()
+		tc = time.Now()
+	}
+	r.Count("shared_context_ended_with_the_second_call_still_blocked", 1)
+	select {
+	case err := <-blockedRes:
+		lag := time.Since(tc)
+		if err == nil {
+			r.Violate("C10/blocked-call-returned-nil/shared-context", what+": the blocked call returned nil after its context ended", "")
+			return
+		}
+		if lag > 4*time.Second {
+			if over := time.Duration(canaryMax.Load()); !(over > c09CanaryLimit && 3*over > lag-4*time.Second) {
+				r.Violate("C10/blocked-call-returned-late/shared-context/"+d.Blocked, fmt.Sprintf("%s: the call returned %v after its context ended", what, lag.Round(time.Millisecond)), "")
+			}
+			return
+		}
+	case <-time.After(30 * time.Second):
+		if over := time.Duration(canaryMax.Load()); over > 5*time.Second {
+			r.Inconclusivef("%s: blocked call not released, canary overslept %v", what, over)
+			return
+		}
+		r.Violate("C10/blocked-call-ignores-its-context/shared-context/"+d.Blocked, what+": the call was still blocked 30 s after the context it shares with a completed call had ended", "")
+		return
+	}
+	if !waitFor(func() bool { return peerEnd.PeerClosed() }) {
+		r.Violate("C10/connection-not-closed-after-context-expiry/shared-context", what+": the blocked call failed but the connection was still open 5 s later", "")
+	}
 }
 
 // peerSendMessage sends one message as frags frames, optionally compressed and
